@@ -877,6 +877,11 @@ func generate(rn *runner, r *hx.Rng, thorough bool) {
 			rn.do("dec " + pickS(r, "bytes", "str", "raw", "big", "u64", "S,bytes", "any", "S,raw") + " " + mh)
 		}
 	}
+	// (r) RawValue / Stream.Raw at every position of small lists built from known parts (empty string,
+	// empty list, single bytes, short/long strings, nested lists), alone and mixed with typed readers
+	for _, c := range rawFamily(r, thorough) {
+		rn.do(c.op)
+	}
 	// (b'') long strings in integer positions, every boundary length (thorough: three payload variants)
 	for _, L := range intLens {
 		if L > 2000 && !thorough {
